@@ -21,9 +21,22 @@ def main():
         budget = args[i + 1]
         del args[i:i + 2]
 
+    prefix = '/tmp/seed_'
+    tag = ''
+
+    if '--src-prefix' in args:
+        i = args.index('--src-prefix')
+        prefix = args[i + 1]
+        del args[i:i + 2]
+
+    if '--tag' in args:
+        i = args.index('--tag')
+        tag = args[i + 1]
+        del args[i:i + 2]
+
     prop, var = args[0], args[1]
     others = args[2:]
-    src = '/tmp/seed_%s/OUT/%s' % (prop, var)
+    src = '%s%s/OUT/%s' % (prefix, prop, var)
     props = [prop] + [p for p in others if p != prop]
     r = subprocess.run(['/venv/bin/python',
                         os.path.join(HERE, 'tools', 'tryseed.py'), src,
@@ -40,8 +53,8 @@ def main():
 
     ok = res.get('applies') and res.get('tests_pass') and \
         res.get('demo_clean_rc') == 0 and res.get('demo_changed_rc', 0) != 0
-    print('%s-%s confirmed=%s tests=%s demo(clean,changed)=(%s,%s)' % (
-        prop, var, ok, res.get('tests'), res.get('demo_clean_rc'),
+    print('%s-%s%s confirmed=%s tests=%s demo(clean,changed)=(%s,%s)' % (
+        prop, tag, var, ok, res.get('tests'), res.get('demo_clean_rc'),
         res.get('demo_changed_rc')))
 
     for p, v in res.get('checks', {}).items():
@@ -50,7 +63,7 @@ def main():
     if not ok:
         return 1
 
-    dst = os.path.join(HERE, 'seeded', '%s-%s' % (prop, var))
+    dst = os.path.join(HERE, 'seeded', '%s-%s%s' % (prop, tag, var))
     os.makedirs(dst, exist_ok=True)
 
     for fn in ('patch.diff', 'demo.py', 'note.txt'):
